@@ -246,7 +246,9 @@ def install(world):
     m_int_module = None
     digits_fn = uf('conv.all_digits', z3.StringSort(), z3.BoolSort())
 
-    def b_int(x=0):
+    def b_int(x=0, base=None):
+        if base is not None:
+            return _b_int_base(x, base)
         if isinstance(x, (SStr, str)) and S.is_sym(x):
             # T-conv: int(s) succeeds iff s is decimal digits and has at
             # most 4300 of them (sys.get_int_max_str_digits)
@@ -259,6 +261,50 @@ def install(world):
                 it.raise_('ValueError', 'invalid literal for int()')
             return SInt(z3.StrToInt(x.t))
         return _b_int(x)
+
+    def _b_int_base(x, base):
+        if not S.is_sym(x) and not S.is_sym(base):
+            return int(x, base)
+        if base != 16 or not isinstance(x, SStr):
+            raise Unsupported('int(%r, %r)' % (x, base))
+        # T-conv: int(s, 16) succeeds when s is hex digits (CPython accepts
+        # a few more spellings - sign, 0x, blanks, underscores: undetermined
+        # here), raises ValueError otherwise; 0 <= value < 16 ** len(s)
+        it = _CUR[0]
+        hexd = z3.Plus(z3.Union(z3.Range('0', '9'), z3.Range('a', 'f'),
+                                z3.Range('A', 'F')))
+        strict = z3.InRe(x.t, hexd)
+        maybe = uf('conv.int16_ok', z3.StringSort(), z3.BoolSort())(x.t)
+        world.trusted_used.add('T-conv: int(str, 16)')
+        if it is not None and not it.spec and not it.branch(
+                z3.Or(strict, maybe)):
+            it.raise_('ValueError', 'invalid literal for int()')
+        v = uf('conv.int16', z3.StringSort(), z3.IntSort())(x.t)
+        if it is not None:
+            n = z3.Length(x.t)
+            # every character contributes at most one hex digit
+            it.path.assume(z3.And(
+                z3.Implies(strict, v >= 0),
+                *[z3.Implies(n == k, z3.And(v < 16 ** k, v > -16 ** k))
+                  for k in range(0, 17)]))
+        return SInt(v)
+
+    def b_chr(x):
+        if not S.is_sym(x):
+            return chr(x)
+        it = _CUR[0]
+        n = TInt.unwrap(x)
+        if it is not None and not it.spec:
+            if it.branch(z3.Or(n > 2 ** 31 - 1, n < -2 ** 31)):
+                it.raise_('OverflowError', 'Python int too large to convert '
+                          'to C int')
+            if it.branch(z3.Or(n < 0, n > 0x10FFFF)):
+                it.raise_('ValueError', 'chr() arg not in range(0x110000)')
+        r = uf('py.chr', z3.IntSort(), z3.StringSort())(n)
+        if it is not None:
+            it.path.assume(z3.Length(r) == 1)
+        return SStr(r)
+    reg('chr', b_chr)
 
     def _b_int(x=0):
         if isinstance(x, (SInt, int)) and not isinstance(x, bool):
@@ -751,6 +797,10 @@ def str_method(world, o, name, args, kw, it, node):
     if not isinstance(o, (str, SStr)):
         return NotImplemented
     if isinstance(o, str) and not any(_deep_sym(a) for a in args):
+        if name in ('format',) and all(
+                isinstance(a, (str, int, float, bool, type(None)))
+                for a in list(args) + list(kw.values())):
+            return o.format(*args, **kw)
         if name in ('format',):
             raise Unsupported('str.format')
     if name == 'format':
